@@ -21,12 +21,13 @@ STORE2REC = {
     "create_edge_with_id": {"CreateEdge"}, "delete_edge": {"DeleteEdge"},
     "set_node_property": {"SetNodeProperty"}, "set_edge_property": {"SetEdgeProperty"},
     "add_label": {"AddNodeLabel"}, "remove_label": {"RemoveNodeLabel"},
-    "remove_node_property": None, "remove_edge_property": None,
+    "remove_node_property": {"RemoveNodeProperty"}, "remove_edge_property": {"RemoveEdgeProperty"},
 }
 REPLAY = {
     "CreateNode": "create_node_with_id", "DeleteNode": "delete_node", "CreateEdge": "create_edge_with_id",
     "DeleteEdge": "delete_edge", "SetNodeProperty": "set_node_property", "SetEdgeProperty": "set_edge_property",
     "AddNodeLabel": "add_label", "RemoveNodeLabel": "remove_label",
+    "RemoveNodeProperty": "remove_node_property", "RemoveEdgeProperty": "remove_edge_property",
 }
 CONTROL = {"TxCommit", "TxAbort", "Checkpoint"}
 DB = "grafeo_engine::database::GrafeoDB"
